@@ -1,8 +1,37 @@
 import SqlframeModel.Codec.Basic
 import SqlframeModel.Impl.C17
 import SqlframeModel.Impl.C17Soundex
+import SqlframeModel.Impl.C17Compose
 namespace Sqlframe.C17
 open Lean
+
+/-- one statement of a column program as the harness sends it -/
+structure PStep where
+  op : String
+  on : Option Nat := none
+  cmp : Option String := none
+  k : Option Int := none
+  v : Option Int := none
+  deriving FromJson
+
+def cmpOfName : String → Cmp
+  | ">" => .gt | "<" => .lt | ">=" => .ge | "<=" => .le | "==" => .eq | _ => .ne
+
+/-- `none`: a step this model does not speak about -/
+def PStep.toStep (p : PStep) : Option Step :=
+  let b : Branch := ⟨cmpOfName (p.cmp.getD "!="), p.k.getD 0, p.v.getD 0⟩
+  match p.op with
+  | "start" => some (.start b)
+  | "when" => p.on.map (fun o => .when o b)
+  | "otherwise" => p.on.map (fun o => .otherwise o (p.v.getD 0))
+  | "neg" => p.on.map (fun o => .un o .neg)
+  | "add" => p.on.map (fun o => .un o (.add (p.k.getD 0)))
+  | "mul" => p.on.map (fun o => .un o (.mul (p.k.getD 0)))
+  | "abs" => p.on.map (fun o => .un o .abs)
+  | "coalesce" => p.on.map (fun o => .un o (.coalesce (p.k.getD 0)))
+  | "alias" => p.on.map (fun o => .un o .ident)
+  | "cast" => p.on.map (fun o => .un o .ident)
+  | _ => none
 
 /-- one driver request; unused fields are absent -/
 structure Req where
@@ -22,10 +51,17 @@ structure Req where
   rep : Option String := none
   pos : Option Int := none
   len : Option Int := none
+  strs : Option (List String) := none
+  ostrs : Option (List (Option String)) := none
+  prog : Option (List PStep) := none
+  rows : Option (List (Option Int)) := none
   deriving FromJson
 
 def optInt : Option Int → Json | none => Json.null | some i => toJson i
 def optNat : Option Nat → Json | none => Json.null | some i => toJson i
 def ints (xs : List Int) : Json := toJson xs
+def optStr : Option String → Json | none => Json.null | some s => toJson s
+def optInts (xs : List (Option Int)) : Json := Json.arr (xs.map optInt).toArray
+def table (t : List (List (Option Int))) : Json := Json.arr (t.map optInts).toArray
 
 end Sqlframe.C17
